@@ -1,6 +1,6 @@
 module goatverif
 
-go 1.21
+go 1.22
 
 require (
 	github.com/avos-io/goat v0.0.0
